@@ -362,6 +362,28 @@ def h_default_removal(E):
     return 'ok'
 
 
+def h_array_dim_history(E):
+    """the same text evaluated where it is a matrix and where it is a vector, by graders with different max_array_dim, in either order: each grader sees only
+    the array rank of ITS evaluation (evaluation metadata is per call, not remembered on the shared parsed expression)"""
+    import mitxgraders as m
+    import mitxgraders.helpers.calc.expressions as X
+    from mitxgraders.helpers.calc.math_array import MathArray
+    from mitxgraders.exceptions import MITxError
+    X.PARSER.cache = {}
+    text = E.choice('text', ['[v, v]', '[v, 2*v]+[v, v]', '[v]'])
+    first = E.choice('first', ['matrix-grader', 'vector-grader'])
+    big = m.MatrixGrader(answers=text, user_constants={'v': MathArray([1.0, 2.0])}, max_array_dim=2)
+    small = m.MatrixGrader(answers=text, user_constants={'v': 3.0}, max_array_dim=1)
+    order = [big, small, big, small] if first == 'matrix-grader' else [small, big, small, big]
+    for g in order:
+        try:
+            r = g(None, text)
+            E.check('grader-sees-only-its-own-evaluation', r['ok'] is True)
+        except MITxError:
+            E.check('grader-sees-only-its-own-evaluation', False)
+    return 'ok'
+
+
 def h_scopes(E):
     """the variable/function scopes handed to the evaluator are not altered, whatever the outcome"""
     from mitxgraders.helpers.calc.expressions import evaluator
@@ -456,6 +478,7 @@ def harnesses(tier):
     add(c09.h_suffix_isolation, 'suffix_isolation', {}, 'a metric-suffix grader built before / after / both: other graders and the class-level suffix table are unaffected')
     add(c08.h_matrix_messages, 'matrix_messages', dict(length=2), 'all sequences of 2 calls over 3 MatrixGraders x 4 inputs: no grader sees another one\'s wrong_msg', validate=False)
     add(c08.h_formula_messages, 'formula_messages', dict(length=2), 'all sequences of 2 calls over 3 FormulaGraders', validate=False)
+    add(h_array_dim_history, 'array_dim_history', {}, '3 texts x 2 orders of a matrix-valued and a vector-valued evaluation of the same text', validate=False)
     add(h_default_removal, 'default_removal', {}, '4 grader classes x 3 default constants suppressed with None, then one fresh grader of every class', validate=False)
     add(h_debug_mix, 'debug_mix', {}, 'parent debug x subgrader debug x prior solo call x 4 subgrader kinds, symbolic samples', validate=False)
     add(h_shared_parser, 'shared_parser', dict(length=2), 'all sequences of 2 failing or fine calls (7 kinds) on one grader, each followed by a fresh string on another grader', validate=False)
